@@ -769,6 +769,82 @@ def show(t: T, depth=6) -> str:
     return op
 
 
+def evalf(t: T, env=None, memo=None):
+    """Float evaluation of a term (variables from env: name -> float)."""
+    env = env or {}
+    if memo is None:
+        memo = {}
+    stack = [t]
+    while stack:
+        n = stack[-1]
+        if n in memo:
+            stack.pop()
+            continue
+        pend = [a for a in n.args if a not in memo]
+        if pend:
+            stack.extend(pend)
+            continue
+        stack.pop()
+        a = [memo[x] for x in n.args]
+        op = n.op
+        if op == "const":
+            r = float(n.val)
+        elif op == "named":
+            r = NAMED[n.val]
+        elif op == "var":
+            r = env[n.val]
+        elif op == "true":
+            r = True
+        elif op == "false":
+            r = False
+        elif op == "add":
+            c, coefs = n.val
+            r = float(c) + sum(float(k) * x for k, x in zip(coefs, a))
+        elif op == "mul":
+            r = 1.0
+            for x, e in zip(a, n.val):
+                r *= x ** e
+        elif op == "ite":
+            r = a[1] if a[0] else a[2]
+        elif op == "lt0":
+            r = a[0] < 0
+        elif op == "le0":
+            r = a[0] <= 0
+        elif op == "eq0":
+            r = a[0] == 0
+        elif op == "not":
+            r = not a[0]
+        elif op == "and":
+            r = all(a)
+        elif op == "app":
+            v = n.val
+            x = a[0] if a else None
+            if v == "exp":
+                r = math.exp(x)
+            elif v == "log":
+                r = math.log(x)
+            elif v == "sqrt":
+                r = math.sqrt(x)
+            elif v == "cbrt":
+                r = math.copysign(abs(x) ** (1 / 3), x)
+            elif v == "Phi":
+                r = 0.5 * math.erfc(-x / math.sqrt(2))
+            elif v == "cos":
+                r = math.cos(x)
+            elif v == "sin":
+                r = math.sin(x)
+            elif v == "floor":
+                r = float(math.floor(x))
+            elif isinstance(v, tuple) and v[0] == "pow":
+                r = x ** float(v[1])
+            else:
+                raise NotImplementedError("evalf of %s" % (v,))
+        else:
+            raise NotImplementedError(op)
+        memo[n] = r
+    return memo[t]
+
+
 # ---------------------------------------------------------------------------------------
 # symbolic differentiation
 # ---------------------------------------------------------------------------------------
